@@ -201,4 +201,16 @@ theorem no_match_by_first_char (E : Env) (r : Re) (S : List (Nat × Nat)) (h : f
     rw [hc c h1] at h2
     exact absurd h2 (by simp)
 
+/-- the rule cannot start at character `c` -/
+def deadOn (c : Cp) (x : Rule) : Bool := start c x.re == .dead
+
+theorem dead_at (E : Env) (c : Cp) (r : Re) (h : start c r = .dead) (p : Nat) (hc : E.s[p]? = some c) :
+    derivs E r ⟨p, []⟩ = [] := by
+  have := start_sound E c r
+  rw [h] at this
+  exact this ⟨p, []⟩ hc
+
+theorem deadOn_at (E : Env) (c : Cp) (x : Rule) (h : deadOn c x = true) (p : Nat) (hc : E.s[p]? = some c) :
+    derivs E x.re ⟨p, []⟩ = [] := dead_at E c x.re (by simpa [deadOn] using h) p hc
+
 end Sql
